@@ -22,7 +22,8 @@ EXPLANATION = (
     "of every resolved node on to generate() (visitor completeness through helper functions). Address computation, autoderef insertion "
     "and wrap-around arithmetic are value-level and not decided."
     " ADDED LATER: R7 members are addressed by the offset resolved by name (def-use through typer, resolver, generator); R8 the generator passes every child of every resolved node on to generate() (interprocedural T2); the call-convention rule of C03.R8 and the literal materialisation rules of C09.R6 are shared."
-    " ROUNDS 5-6: R9 decision table of resolved::Expression::value_type; R10 every extractvalue of generate_word_deref takes the value accumulated by the previous steps (backward slice). Tables are compared in canonical binding names (hirq.full_env), not source names.")
+    " ROUNDS 5-6: R9 decision table of resolved::Expression::value_type; R10 every extractvalue of generate_word_deref takes the value accumulated by the previous steps (backward slice). Tables are compared in canonical binding names (hirq.full_env), not source names."
+    " ROUND 7: R11 the Element and Member arms after the automatic dereference of an immediate parameter both push the leading zero index (sibling agreement; /repo fix b78d5a6); class predicates are folded per variant whatever their form.")
 
 GEN_EXPR = "<alpha::resolved::Expression as alpha::generator::Generatable>::generate"
 GEN_CMP = "<alpha::resolved::Comparison as alpha::generator::Generatable>::generate"
